@@ -539,3 +539,36 @@ def ub_hints(a):
         elif c.fn == "core::hint::assert_unchecked":
             out.append((c, None))
     return out
+
+
+def check_write_permission(ctx, cfg, rule):
+    """No pointer derived from a shared borrow is written through or turned back into `&mut` (mutprov): sweep over every body of the crate with
+    its private helpers expanded, plus the fixture (a positive function that must be reported and its negative twin that must not)."""
+    import os
+    import tempfile
+    from . import mutprov
+    from .facts import Facts
+    from .core import VERIF
+    db = ctx.db(cfg)
+    n = 0
+    for b in db.bodies:
+        if b["kind"] not in ("Fn", "AssocFn", "Closure"):
+            continue
+        if b["kind"] != "Closure" and ctx.is_helper(cfg, b):
+            continue
+        b2 = ctx.inlined(db, b) if b["kind"] != "Closure" else b
+        _t, finds = mutprov.analyse(b2)
+        n += 1
+        for j, (at_, what) in enumerate(finds):
+            ctx.ob(rule, "%s#write-permission#%d" % (b["key"], j), REFUTED, what, at=at_, cfg=cfg)
+    ctx.ob(rule, "write-permission sweep (%s)" % cfg, n >= 50, "bodies swept for writes / mutable reborrows through pointers derived from shared borrows: %d (findings are listed separately)" % n, cfg=cfg)
+    bld = ctx.builds[cfg]
+    out = os.path.join(tempfile.mkdtemp(prefix="mutprov-", dir=bld.dir), "facts.json")
+    rc, diags, facts, stderr = bld.compile_witness(os.path.join(VERIF, "fixtures", "mutprov", "lib.rs"), out_facts=out, crate_name="mutprov_fixture")
+    if rc != 0 or facts is None:
+        ctx.ob(rule, "write-permission fixture (%s)" % cfg, MISSING, "fixture did not compile: %s" % stderr[-300:], cfg=cfg)
+        return
+    fdb = Facts(facts)
+    got = {b["key"]: len(mutprov.analyse(b)[1]) for b in fdb.bodies if b["key"] in ("halves_through_shared", "halves_through_mut")}
+    ok = got.get("halves_through_shared", 0) >= 2 and got.get("halves_through_mut", -1) == 0
+    ctx.ob(rule, "write-permission fixture (%s)" % cfg, ok, "findings on the fixture: through a shared reborrow -> %s (required: >= 2), through as_mut_ptr -> %s (required: 0)" % (got.get("halves_through_shared"), got.get("halves_through_mut")), cfg=cfg)
